@@ -15,6 +15,14 @@ import (
 
 var usedSpecs = map[string]bool{}
 
+const mxHeld = "MX!held"
+
+func (x *Exec) mxRegister() {
+	if _, ok := prefixRegistry["MX"]; !ok {
+		prefixRegistry["MX"] = [][2]string{{mxHeld, arrSort(SInt, SInt)}}
+	}
+}
+
 var doneChans = map[string]Term{}
 
 func reg(name string, f Intrinsic) {
@@ -365,8 +373,18 @@ func init() {
 		return one(st, bval(And(Neq(c.Args[0].T, IntT(0)), x.errPred(pred, c.Args[0].T))))
 	})
 	reg("errors.As", func(x *Exec, st *State, c *CallCtx) []Outcome {
-		// only used for DuplicateRecordError
-		return one(st, bval(And(Neq(c.Args[0].T, IntT(0)), x.errPred("isDuplicate", c.Args[0].T))))
+		// DuplicateRecordError targets are the duplicate kind; any other target type: undetermined
+		tn := ""
+		if len(c.Common.Args) > 1 {
+			tn = typeName(c.Common.Args[1].Type())
+		}
+		if c.Args[1].K == VIface && c.Args[1].Dyn != nil {
+			tn = typeName(c.Args[1].Dyn)
+		}
+		if strings.Contains(tn, "DuplicateRecordError") {
+			return one(st, bval(And(Neq(c.Args[0].T, IntT(0)), x.errPred("isDuplicate", c.Args[0].T))))
+		}
+		return one(st, bval(And(Neq(c.Args[0].T, IntT(0)), x.fresh(st, "errorsAs", SBool))))
 	})
 	reg("errors.Join", func(x *Exec, st *State, c *CallCtx) []Outcome {
 		ws := x.variadicIfaces(st, c.Args[0])
@@ -546,8 +564,25 @@ func init() {
 	for _, n := range []string{"Error", "Warn", "Info", "Debug", "Trace"} {
 		reg("iface:github.com/hashicorp/go-hclog.Logger."+n, noop)
 	}
-	for _, n := range []string{"(*sync.RWMutex).Lock", "(*sync.RWMutex).Unlock", "(*sync.RWMutex).RLock", "(*sync.RWMutex).RUnlock", "(*sync.Mutex).Lock", "(*sync.Mutex).Unlock"} {
-		reg(n, noop)
+	// mutexes: no blocking is modelled (sequential semantics), but a ghost counter per mutex records what
+	// the calling function holds: Lock +1000 / Unlock -1000, RLock +1 / RUnlock -1. Spec: mutexHeld(m) == 0
+	// states that every lock taken has been released (a function that returns with a lock held wedges
+	// every later caller).
+	for n, d := range map[string]int64{"(*sync.RWMutex).Lock": 1000, "(*sync.RWMutex).Unlock": -1000, "(*sync.RWMutex).RLock": 1, "(*sync.RWMutex).RUnlock": -1, "(*sync.Mutex).Lock": 1000, "(*sync.Mutex).Unlock": -1000} {
+		d := d
+		reg(n, func(x *Exec, st *State, c *CallCtx) []Outcome {
+			x.mxRegister()
+			m := c.Args[0].T
+			if c.Args[0].K == VAddr && c.Args[0].A != nil {
+				m = c.Args[0].A.Ref // a mutex embedded in (or a field of) an object is identified by that object
+			}
+			a := x.heapCur(st, mxHeld, arrSort(SInt, SInt))
+			x.heapSet(st, mxHeld, StoreT(a, m, Add(Select(a, m, SInt), IntT(d))))
+			if !st.Fresh[m.S] {
+				st.Dirty[mxHeld] = true
+			}
+			return one(st)
+		})
 	}
 	reg("iface:context.Context.Done", func(x *Exec, st *State, c *CallCtx) []Outcome {
 		// the done channel is a function of the context; neverCancelled(ctx) ==> it is never ready (see selectOp)
